@@ -115,6 +115,15 @@ Theorem C19_poll_progress_single : forall s c,
   P.p_pc s' c = P.CDone (P.p_q s) /\ P.p_q s' = [].
 Proof. exact PP.progress_single. Qed.
 
+(** One poll request running alone, wherever it is (not yet started, parked at the wait, woken):
+    its three labels - start, take the token, get - make it return the whole queue; none of them
+    involves the timer. *)
+Theorem C19_poll_request_delivers : forall s c,
+  P.preachable s -> P.p_q s <> [] -> (forall c', c' <> c -> P.p_pc s c' <> P.CWoke) ->
+  let s' := exec P.pstep (PP.poll_request c) s in
+  P.p_pc s' c = P.CDone (P.p_q s) /\ P.p_q s' = [] /\ forallb P.timer_free (PP.poll_request c) = true.
+Proof. exact PP.poll_request_delivers. Qed.
+
 (** ... or by the poll request that arrives next. *)
 Theorem C19_poll_arriving_poll_returns_queue : forall s c s',
   P.p_q s <> [] -> P.pstep (P.PStart c) s = Some s' -> P.p_pc s' c = P.CDone (P.p_q s) /\ P.p_q s' = [].
